@@ -5,8 +5,9 @@ OPS = {'o1': dict(name='A', eqv=1, k=2, x0=10), 'o2': dict(name='A', eqv=2, k=3,
 NT_OP = {'t1': 'o1', 't2': 'o2', 't3': 'o3', 't4': 'o1', 't6': 'o2'}
 NT_VAR = {'t1': {}, 't2': {}, 't3': {'k': 7.0}, 't4': {'x': 15.0}, 't6': {'k': 6.0}}
 CIRC_NODES = {'c1': [('a', 't1'), ('b', 't1'), ('c', 't4')], 'c2': [('a', 't2'), ('b', 't6')], 'c3': [('a', 't3'), ('b', 't1')]}
-EDGE_GAIN = {'c1': 3, 'c2': 1, 'c3': 6, 'cy': 1}      # edge templates of c1 / c3: operators named 'E' with different gains
-INP_VAL = {'c1': 7.0, 'c2': 11.0, 'c3': 13.0, 'cy': 17.0}
+EDGE_GAIN = {'c1': 3, 'c2': 1, 'c3': 6, 'cy': 1, 'd1': 3}      # edge templates of c1 / c3: operators named 'E' with different gains
+INP_VAL = {'c1': 7.0, 'c2': 11.0, 'c3': 13.0, 'cy': 17.0, 'd1': 19.0}
+# d1 = c1.update_template(name='d1'): a derived circuit that references c1's node templates and edges
 CIRC_EDGES = {'c1': [(1, 2, 4.0), (3, 1, 6.0)], 'c2': [], 'c3': [(1, 2, 8.0)]}
 VAR = {'k': 'k', 'x0': 'x'}
 # the circuit "cy" of Api.tla lives in a YAML file (operator Y: x' = -2*k*x + u, k = 4, x(0) = 50)
@@ -14,6 +15,8 @@ OPS['o4'] = dict(name='Y', eqv=2, k=4, x0=50)
 NT_OP['t5'] = 'o4'
 CIRC_NODES['cy'] = [('a', 't5')]
 CIRC_EDGES['cy'] = []
+CIRC_NODES['d1'] = list(CIRC_NODES['c1'])
+CIRC_EDGES['d1'] = list(CIRC_EDGES['c1'])
 CY_YAML = """
 Y:
   base: OperatorTemplate
@@ -70,7 +73,7 @@ class Universe:
         with open('ymodels/cyfile.yaml', 'w') as f:
             f.write(CY_YAML)
         for c, nodes in CIRC_NODES.items():
-            if c == 'cy':
+            if c in ('cy', 'd1'):
                 continue
             nd = {n: self.nts[t] for n, t in nodes}
             ed = []
@@ -178,6 +181,9 @@ class Universe:
         if a == 'clear_frontend_caches':
             from pyrates import clear_frontend_caches
             clear_frontend_caches(); return None
+        if a == 'derive':
+            self.circs['d1'] = self.circs['c1'].update_template(name='d1')
+            return None
         if a == 'from_yaml':
             from pyrates import CircuitTemplate
             self.circs['cy'] = CircuitTemplate.from_yaml('ymodels/cyfile/cy')
